@@ -211,6 +211,8 @@ class Stmts(Exec):
 
     def setitem(self, st, c, k, v, node):
         t = c.t
+        ph = getattr(self.reg, 'pre_setitem_hook', None)
+        if ph is not None: ph(self, st, c, k, v, node)       # observer: may add obligations / ghost updates
         if isinstance(t, DictT):
             if t.k == ANY: raise Unsupported('store into untyped dict at %s (declare its type)' % self.loc(node))
             z = self.deref(st, c)
